@@ -21,6 +21,7 @@ from pvc.engine import Obligation, split
 from pvc.sym import And, Implies, Not, Or, smin
 
 from .C08 import check_same_curve, rows, wf_table
+from . import unbounded
 from .shared import PT, tol
 
 LEVEL = "exploration"
@@ -207,6 +208,7 @@ def obligations():
     obs += [
         Obligation("C07.split.b", _ob_split(6), kind="bounded", bound="V-shaped profiles of 2..6 rows, pinch on any row", functions=[gm.get_seperated_gcc_heat_load_profiles],
                    expect=("cooling_profile_monotone", "heating_profile_starts_at_Qh"), max_paths=200000),
+        unbounded.split_obligation("C07.split.u"),
         Obligation("C07.actual", ob_needing_utility, kind="proof", functions=[gm.get_GCC_needing_utility]),
     ]
     return obs
